@@ -3,6 +3,7 @@ module verif
 go 1.23.0
 
 require (
+	github.com/blang/semver v3.5.1+incompatible
 	github.com/janelia-flyem/dvid v0.0.0
 	google.golang.org/protobuf v1.33.0
 )
@@ -25,7 +26,6 @@ require (
 	github.com/aws/aws-sdk-go-v2/service/sso v1.4.0 // indirect
 	github.com/aws/aws-sdk-go-v2/service/sts v1.7.0 // indirect
 	github.com/aws/smithy-go v1.8.0 // indirect
-	github.com/blang/semver v3.5.1+incompatible // indirect
 	github.com/cespare/xxhash v1.1.0 // indirect
 	github.com/cespare/xxhash/v2 v2.2.0 // indirect
 	github.com/coocood/freecache v1.2.1 // indirect
